@@ -1548,3 +1548,115 @@ def lefthanded_flows(run, tmp, rng, thorough):
                 # dependence (C04 / C08), not a front-end defect
                 run.broke("description-invariance", msg + (" [commands equal the library on both descriptions]" if len(run.violations) == nviol else ""))
     os.chdir(tmp)
+
+
+# --------------------------------------------------------------------------
+# the LAMMPS route: forces come in the LAMMPS frame (lower-triangular box with positive diagonal)
+# --------------------------------------------------------------------------
+
+def lammps_flows(run, tmp, rng, thorough):
+    """`phonopy --lammps`: -d (unit cell from a LAMMPS structure file, supercells written for LAMMPS), -f / --fz with
+    synthetic LAMMPS dump files whose forces are in the LAMMPS frame (rotation obtained independently: Cholesky of
+    the metric), for supercell bases that are already LAMMPS-oriented, lower triangular with NEGATIVE diagonal
+    entries (negative DIM entries / a unit cell given that way in a yaml), and generically oriented.
+    Oracle: FORCE_SETS holds the model forces in the phonopy frame (what the library is given), and the
+    frequencies computed from it equal the library's."""
+    import phonopy
+    from phonopy import Phonopy
+    from phonopy.file_IO import parse_FORCE_SETS
+    from phonopy.interface.lammps import read_lammps, write_lammps
+    from phonopy.interface.phonopy_yaml import PhonopyYaml
+    from phonopy.structure.atoms import PhonopyAtoms
+
+    from .c17_forces import _lammps_rotation, write_output
+
+    L0 = np.array([[3.0, 0.0, 0.0], [-1.5, 2.6, 0.0], [0.3, 0.2, 4.6]])
+    pos = [[0, 0, 0], [1 / 3, 2 / 3, 0.5]]
+    th = 0.3 + 0.1 * rng.randint(0, 9)
+    ax = np.array([1.0, 2.0, 0.5]) / np.linalg.norm([1.0, 2.0, 0.5])
+    K = np.array([[0, -ax[2], ax[1]], [ax[2], 0, -ax[0]], [-ax[1], ax[0], 0]])
+    R = np.eye(3) + np.sin(th) * K + (1 - np.cos(th)) * K @ K
+    flip = np.diag([-1.0, -1.0, 1.0])  # a proper rotation by 180 degrees about z: lower triangular with negative a_x, b_y
+    # (name, unit-cell lattice, DIM as given, unit cell through a LAMMPS structure file?)
+    cases = [
+        ("lammps-oriented", L0, ["2", "2", "1"], True),
+        ("negative-dim", L0, ["-2", "0", "0", "0", "-2", "0", "0", "0", "1"], True),
+        ("negative-diagonal-unit-cell", L0 @ flip, ["2", "2", "1"], False),
+        ("generic-orientation", L0 @ R.T, ["2", "2", "1"], False),
+    ]
+    q = [[0.1, 0.2, 0.3], [0.5, 0.0, 0.0]]
+    for name, lat, dimv, by_file in cases:
+        fl = Flow(run, "lammps-" + name, [2, 2, 1], tmp)
+        os.chdir(fl.dir)
+        unit = PhonopyAtoms(cell=lat, symbols=["Na", "Cl"], scaled_positions=pos)
+        fl.cell = unit
+        smat = np.diag([int(x) for x in dimv]) if len(dimv) == 3 else np.array([int(x) for x in dimv]).reshape(3, 3)
+        lib = Phonopy(unit, supercell_matrix=smat, calculator="lammps", log_level=0)
+        lib.generate_displacements()
+        sc = lib.supercell
+        d_lib = np.array([[x["number"]] + list(x["displacement"]) for x in lib.dataset["first_atoms"]], dtype=float)
+        run.case(("lammps", name), nontrivial=True)
+        run.count("lammps workflows: %s" % name, section="oracle")
+        case = dict(case=name, unit_cell_lattice=np.asarray(lat).tolist(), dim=dimv, supercell_lattice=np.asarray(sc.cell).tolist())
+        if by_file:
+            write_lammps("unitcell", unit)
+            argv = ["--lammps", "-d", "--dim"] + dimv + ["-c", "unitcell"]
+            if rng.random() < 0.5:  # the DIM tag instead of --dim
+                U.write_conf("d.conf", ["DIM = " + " ".join(dimv), "CREATE_DISPLACEMENTS = .TRUE."])
+                argv = ["d.conf", "--lammps", "-c", "unitcell"]
+            if fl.cmd("phonopy", argv, must=["phonopy_disp.yaml", "supercell-001"]) is None:
+                continue
+            py = PhonopyYaml()
+            py.read("phonopy_disp.yaml")
+            d_cli = np.array([[x["number"]] + list(x["displacement"]) for x in py.dataset["first_atoms"]], dtype=float)
+            fl.close("phonopy_disp.yaml displacements (--lammps, %s)" % name, d_cli, d_lib, 1e-13, argv)
+            fl.close("supercell lattice in phonopy_disp.yaml (--lammps, %s)" % name, py.supercell.cell, sc.cell, 1e-12, argv)
+            # the supercell files are written in the LAMMPS frame
+            scd = lib.supercells_with_displacements[0]
+            qrot = _lammps_rotation(np.asarray(scd.cell))
+            w = read_lammps("supercell-001")
+            fl.close("supercell-001 box (LAMMPS frame, %s)" % name, w.cell, np.asarray(scd.cell) @ qrot, 1e-10, argv, klass="lammps-supercell-file-wrong")
+            dp = w.scaled_positions - scd.scaled_positions
+            fl.close("supercell-001 reduced positions (%s)" % name, dp - np.rint(dp), np.zeros_like(dp), 1e-10, argv, klass="lammps-supercell-file-wrong")
+        else:
+            lib.save("phonopy_disp.yaml", settings={"displacements": True})
+        # model forces in the phonopy frame; dump files in the LAMMPS frame
+        fc = gen.pair_fc(sc, cutoff=4.0)
+        forces, dumps = [], []
+        resid = np.array([[((3 * i + a) % 5 - 2) * 1e-3 for a in range(3)] for i in range(len(sc))])
+        resid -= resid.mean(axis=0)
+        write_output("lammps", "dump.000", resid, sc)
+        for i, scd in enumerate(lib.supercells_with_displacements):
+            f = -np.einsum("ijab,jb->ia", fc, scd.positions - sc.positions)
+            forces.append(f)
+            write_output("lammps", "dump.%03d" % (i + 1), f, scd)
+            write_output("lammps", "dumpz.%03d" % (i + 1), f + resid, scd)
+            dumps.append("dump.%03d" % (i + 1))
+        forces = np.array(forces)
+        for argv, what in ((["--lammps", "-f"] + dumps, "-f"), (["--lammps", "--fz", "dump.000"] + [d.replace("dump.", "dumpz.") for d in dumps], "--fz")):
+            if os.path.exists("FORCE_SETS"):
+                os.remove("FORCE_SETS")
+            if fl.cmd("phonopy", argv, must=["FORCE_SETS"]) is None:
+                continue
+            ds = parse_FORCE_SETS(natom=len(sc), filename="FORCE_SETS")
+            got = np.array([x["forces"] for x in ds["first_atoms"]])
+            fl.nchecks += 1
+            run.count("workflow comparisons", section="oracle")
+            if got.shape != forces.shape or np.abs(got - forces).max() > 2e-9:
+                run.violation("phonopy_script.main", "lammps-forces-frame-wrong",
+                              "%s: `phonopy %s …`: FORCE_SETS forces differ from the model forces in the phonopy frame by %.3g (supercell basis %s); "
+                              "the dump files hold the forces in the LAMMPS frame" % (
+                                  name, " ".join(argv[:3]), float(np.abs(got - forces).max()) if got.shape == forces.shape else float("nan"),
+                                  np.round(np.asarray(sc.cell), 3).tolist()), dict(case, argv=argv[:4] + ["…"]))
+        # frequencies from the FORCE_SETS of the command against the library given the model forces
+        if os.path.exists("FORCE_SETS"):
+            lib.forces = forces
+            lib.produce_force_constants(calculate_full_force_constants=False, fc_calculator="traditional")
+            lib.run_qpoints(q)
+            argv = ["phonopy_disp.yaml", "--fc-calc", "traditional", "--no-fc-symmetry", "--qpoints"] + [str(x) for x in np.ravel(q)]
+            if fl.cmd("load", argv, must=["qpoints.yaml"]) is not None:
+                y = _yaml("qpoints.yaml")
+                fl.close_freq("qpoints.yaml frequencies after --lammps -f (%s)" % name, [[b["frequency"] for b in p["band"]] for p in y["phonon"]],
+                              lib.get_qpoints_dict()["frequencies"], 1e-6, argv, klass="lammps-forces-frame-wrong")  # FORCE_SETS prints 10 decimals
+        run.cov["oracle"]["workflow comparisons: " + fl.name] = fl.nchecks
+    os.chdir(tmp)
